@@ -198,6 +198,7 @@ type ExploreOpts struct {
 	Filter   func(name string) bool
 	MaxExec  int64
 	Expired  func() bool
+	Desc     string // scenario description for the hang guard
 	// TolerateDivergence: a replayed prefix that meets another enabled set is not an error (see Explore).
 	TolerateDivergence bool
 }
@@ -214,7 +215,9 @@ func Explore(mk func() World, opts ExploreOpts, onExec func(x *Exec, f *Finding,
 	runOne := func(it item) []item {
 		x := &Exec{Prefix: it.prefix, Filter: opts.Filter}
 		var f *Finding
+		leave := GuardEnter(fmt.Sprintf("schedule exploration, choice prefix %v (%s)", it.prefix, opts.Desc))
 		leak, pan := Bubble(func() { f = x.Run(mk()) })
+		leave()
 		if f == nil && pan != "" {
 			f = F("sched-harness-panic", "%s (schedule %v)", pan, x.Schedule)
 		}
